@@ -16,6 +16,7 @@ import xarray
 from symx import builders, geo
 from symx.core import And, HarnessError, Iff, Implies, Not, Or, same, isnan
 from symx.runner import Case, main_run, replay_file
+from symx.snap import snapshot, unchanged
 from harness import clipcommon
 from harness.c07 import ref_ring
 
@@ -42,7 +43,9 @@ def grid_dataset(ctx, conv, shape, as_coords=True):
         kinds['face']['float'].append('w_face')
         data['flag'] = (D['face'], clipcommon.ids(SH['face'], 'int16', 10), {'_FillValue': numpy.int16(-99)})
         data['miss'] = (D['face'], clipcommon.ids(SH['face'], 'int32', 20), {'missing_value': numpy.int32(-1)})
-        kinds['face']['intfill'] = [('flag', -99), ('miss', -1)]
+        data['zero'] = (D['face'], clipcommon.ids(SH['face'], 'uint8', 1), {'_FillValue': numpy.uint8(0)})
+        data['mzero'] = (D['face'], clipcommon.ids(SH['face'], 'int16', 1), {'missing_value': numpy.int16(0)})
+        kinds['face']['intfill'] = [('flag', -99), ('miss', -1), ('zero', 0), ('mzero', 0)]
         data['clock'] = (('record',), numpy.array([5.0, 6.0]), {'long_name': 'clock'})
         data['scalar'] = ((), numpy.float64(7.5))
         ds = builders.shoc_standard(ny, nx, data_vars=data, as_coords=as_coords)
@@ -56,10 +59,13 @@ def grid_dataset(ctx, conv, shape, as_coords=True):
         'cellid': ((yd, xd), clipcommon.ids((ny, nx))),
         'flag': ((yd, xd), clipcommon.ids((ny, nx), 'int16', 10), {'_FillValue': numpy.int16(-99)}),
         'miss': ((yd, xd), clipcommon.ids((ny, nx), 'int32', 20), {'missing_value': numpy.int32(-1)}),
+        # zero is a legal fill value (category / flag variables)
+        'zero': ((yd, xd), clipcommon.ids((ny, nx), 'uint8', 1), {'_FillValue': numpy.uint8(0)}),
+        'mzero': ((yd, xd), clipcommon.ids((ny, nx), 'int16', 1), {'missing_value': numpy.int16(0)}),
         'clock': (('t',), numpy.array([5.0, 6.0]), {'long_name': 'clock'}),
         'scalar': ((), numpy.float64(7.5)),
     }
-    kinds = {'face': dict(dims=(yd, xd), shape=(ny, nx), float=['temp', 'botz', 'mid'], id='cellid', intfill=[('flag', -99), ('miss', -1)])}
+    kinds = {'face': dict(dims=(yd, xd), shape=(ny, nx), float=['temp', 'botz', 'mid'], id='cellid', intfill=[('flag', -99), ('miss', -1), ('zero', 0), ('mzero', 0)])}
     if conv == 'cf1d':
         # stored bounds: the cell geometry is explicit, so it can be compared before and after clipping
         # (and a clipped axis of length one still has a width)
@@ -113,6 +119,21 @@ def run_clip(ctx, cv, chosen, clips, buffer, via):
         with clipcommon.work_dir(ctx) as wd:
             if via == 'clip':
                 out = cv.clip(clip, wd, buffer=buffer)
+            elif via == 'mask_twice':
+                # one mask cuts a series of datasets with the same geometry: the second application of the same
+                # mask object gives what the first one gave, and the mask itself is left as it was
+                import os
+                mask = cv.make_clip_mask(clip, buffer=buffer)
+                msnap = snapshot(mask)
+                wa, wb = os.path.join(wd, 'a'), os.path.join(wd, 'b')
+                if not ctx.symbolic:
+                    os.mkdir(wa)
+                    os.mkdir(wb)
+                first = cv.apply_clip_mask(mask, wa)
+                first = first.load() if not ctx.symbolic else first
+                outs.append(first)
+                ctx.check(unchanged(mask, msnap, what=('values', 'dims', 'names')), 'applying a clip mask leaves the mask as it was')
+                out = cv.apply_clip_mask(mask, wb)
             else:
                 mask = cv.make_clip_mask(clip, buffer=buffer)
                 if via == 'saved_mask' and not ctx.symbolic:
@@ -223,7 +244,10 @@ def body_grid(ctx, conv, shape, buffer, via, as_coords, check='values'):
         ctx.check(True, 'an empty selection produced a dataset')
         return
     masks = expected_masks(conv, shape, chosen, buffer)
-    for out in run_clip(ctx, cv, chosen, clips, buffer, via):
+    snap = snapshot(ds)
+    outs = run_clip(ctx, cv, chosen, clips, buffer, via)
+    ctx.check(unchanged(ds, snap, what=('values', 'dims', 'attrs', 'names')), 'clipping leaves the input dataset as it was')
+    for out in outs:
         if check == 'values':
             check_grid_values(ctx, ds, out, kinds, masks)
         else:
@@ -277,7 +301,10 @@ def body_mesh(ctx, mesh, supply, start_index, fill, buffer, via, check='values',
     if not chosen:
         ctx.check(True, 'an empty selection is not exercised on meshes')
         return
-    for out in run_clip(ctx, cv, chosen, clips, buffer, via):
+    snap = snapshot(ds)
+    outs = run_clip(ctx, cv, chosen, clips, buffer, via)
+    ctx.check(unchanged(ds, snap, what=('values', 'dims', 'attrs', 'names')), 'clipping leaves the input dataset as it was')
+    for out in outs:
         if check == 'values':
             check_mesh_values(ctx, ds, out, info, kept)
         else:
@@ -297,7 +324,7 @@ def cases(tier, check='values'):
         grids += [('cf1d', (3, 3), False), ('cf2d', (3, 2), False), ('shoc_standard', (2, 3), False), ('cf2d', (3, 3), True)]
     for conv, shape, as_coords in grids:
         for buffer in ((0, 1) if q else (0, 1, 2)):
-            for via in (('clip', 'mask') if q else ('clip', 'mask', 'saved_mask')):
+            for via in (('clip', 'mask') if q else ('clip', 'mask', 'saved_mask', 'mask_twice')):
                 if via != 'clip' and buffer == 2:
                     continue
                 yield Case(f'{check}:grid:{conv}:{shape[0]}x{shape[1]}:{"coords" if as_coords else "vars"}:buf{buffer}:{via}', body_grid,
@@ -314,7 +341,9 @@ def cases(tier, check='values'):
             if mesh in ('fan', 'qqq') and fill == 'attr' and not ({'edge_face', 'face_face'} & set(supply)):
                 fill = 'nan'
             for buffer in ((0,) if q else (0, 1)):
-                for via in (('clip',) if q else ('clip', 'mask')):
+                for via in (('clip', 'mask_twice') if q else ('clip', 'mask', 'mask_twice')):
+                    if via == 'mask_twice' and q and k % 3 != 1:
+                        continue
                     yield Case(f'{check}:mesh:{mesh}:{"+".join(supply) or "none"}:start{start_index}:{fill}:buf{buffer}:{via}', body_mesh,
                                dict(mesh=mesh, supply=supply, start_index=start_index, fill=fill, buffer=buffer, via=via, check=check),
                                patches=_patches, max_paths=2000)
